@@ -531,7 +531,8 @@ func genAccProgram(t *Tape, mutate bool) string {
 	return sb.String()
 }
 
-var procSelectors = []string{"$", "$.items", "$.a", "$.b", "$[0]", "$[-1]", "$.items[0]", "$.zz", "$.a.length()", "$.id", "[$]", "$.items.sort()", "\"lit\"", "$.b[1]"}
+var procSelectors = []string{"$", "$.items", "$.a", "$.b", "$[0]", "$[-1]", "$.items[0]", "$.zz", "$.a.length()", "$.id", "[$]", "$.items.sort()", "\"lit\"", "$.b[1]",
+	"[$.a, $.b]", "$.pluck(\"id\", \"t\")", "{x: $.id, y: [1, 2]}", "match ($) { [a, b] => b, other => other }", "$ is array", "$.id + 1", "-1", "$.items[-1]", "'a b'", "$.t && $.id", "[1,2,3]"}
 
 func genProcCase(t *Tape, c01only bool) *ProcCase {
 	c := &ProcCase{}
